@@ -1,5 +1,6 @@
 import OdxVerif.Props.C02
 import OdxVerif.Proofs.FlatMsg
+import OdxVerif.Proofs.ComposeMsg
 /-! # C01 — encoding a message and decoding it returns the values that were encoded
     Proved tier: **atomic objects** inside an arbitrary surrounding message (the base case of the
     round-trip argument, for every bit length ≥ 1, bit position, byte order and `A_INT32` encoding),
@@ -75,6 +76,31 @@ example : ∀ ov ∈ exObjs, lookup ov.1.name exValues = some (.atom (.int ov.2)
   intro ov h
   simp only [exObjs, List.mem_cons, List.mem_nil_iff, or_false] at h
   rcases h with rfl | rfl | rfl | rfl <;> simp [lookup, exValues]
+
+/-- **C01, nested-structure tier.** Requests/responses/structures built from `A_INT32` VALUE parameters and
+    arbitrarily deeply nested STRUCTURE-valued parameters, each positioned explicitly (BYTE-POSITION relative to
+    the enclosing structure's first byte) or implicitly (behind its predecessor); sibling short names distinct.
+    `(Trees.pair ts).val` is the value tree (nested dictionaries). If the strict encoder returns a PDU with no
+    overlap warning, the strict decoder returns exactly that value tree. (The size bound is the model's fuel;
+    it admits e.g. 1000 parameters nested 100 deep.) Proof: compositional — `Good` encoder/decoder pairs
+    (`Proofs/Compose.lean`) closed under sequencing, re-positioning and change of origin. -/
+theorem C01_roundtrip_struct (ts : List Tree) (hneed : Trees.need ts + 2 ≤ modelFuel) (hok : Trees.okAll ts)
+    (hn : Trees.namesOk ts) (trig : Option Bytes) (pdu : Bytes)
+    (henc : encodeMessage none (Trees.toParams ts) (.dict (Trees.pair ts).val) trig true = .ok (pdu, 0)) :
+    ∃ cursor, decodeMessage none (Trees.toParams ts) pdu true = .ok (.dict (Trees.pair ts).val, cursor) :=
+  tree_roundtrip_msg ts hneed hok hn trig pdu henc
+
+/-! non-vacuity: a structure at offset 2 inside the request, containing a sub-byte object and a nested structure
+    positioned explicitly inside it; the last top-level parameter sits *before* the structure -/
+def exTrees : List Tree :=
+  [.int ⟨"sid", none, none, none, true, 8⟩ 0x22,
+   .struct "s" (some 2) [.int ⟨"a", none, some 2, some .sm, true, 5⟩ (-9),
+                          .struct "inner" (some 3) [.int ⟨"x", none, none, none, false, 16⟩ (-2)],
+                          .int ⟨"b", some 1, none, some .onec, true, 16⟩ (-256)],
+   .int ⟨"y", some 1, none, none, true, 8⟩ 127]
+example : (encodeMessage none (Trees.toParams exTrees) (.dict (Trees.pair exTrees).val) none true).toOption
+    = some ([0x22, 0x7f, 0x64, 0xfe, 0xff, 0xfe, 0xff], 0) := by decide +kernel
+example : Trees.need exTrees + 2 ≤ modelFuel := by decide
 
 example : int32Known (some .sm) = true ∧ Spec.representable (some .sm) 9 (-255) := by
   simp [int32Known, Spec.representable]
